@@ -1,20 +1,20 @@
 #!/bin/bash
 # try_mutant.sh <ID> [tier] [dir]: confirm a seeded change (tests pass, demo FAIL/PASS) and run the property's check against it.
-# The change lives in a scratch worktree <dir> (default /tmp/mut/<ID>) with the patch applied; /repo is never touched.
-id=$1; tier=${2:-quick}; wt=${3:-/tmp/mut/$id}; prop=${4:-$id}
+# The change lives in a scratch worktree <dir> (default ${MUTBASE:-/tmp/mut}/<ID>) with the patch applied; /repo is never touched.
+id=$1; tier=${2:-quick}; wt=${3:-${MUTBASE:-/tmp/mut}/$id}; prop=${4:-$id}
 export GOFLAGS=-mod=mod GOPROXY=off GOSUMDB=off GOTOOLCHAIN=local HOME=/root
-out=/tmp/mut/$id.result.txt; : > $out
-( cd $wt && go build -o /tmp/mut/$id.goit.changed . ) || { echo "BUILD FAILED" | tee -a $out; exit 2; }
-( cd $wt && go test -vet=off -count=1 ./... 2>&1 | grep -v "no test files" | grep -v "^ok" ) > /tmp/mut/$id.tests.txt
-if [ -s /tmp/mut/$id.tests.txt ]; then echo "TESTS FAIL with the change" | tee -a $out; cat /tmp/mut/$id.tests.txt; else echo "tests pass with the change" | tee -a $out; fi
-( cd /repo && go build -o /tmp/mut/$id.goit.orig . )
-demo=/tmp/mut/$id.demo.sh
+out=${MUTBASE:-/tmp/mut}/$id.result.txt; : > $out
+( cd $wt && go build -o ${MUTBASE:-/tmp/mut}/$id.goit.changed . ) || { echo "BUILD FAILED" | tee -a $out; exit 2; }
+( cd $wt && go test -vet=off -count=1 ./... 2>&1 | grep -v "no test files" | grep -v "^ok" ) > ${MUTBASE:-/tmp/mut}/$id.tests.txt
+if [ -s ${MUTBASE:-/tmp/mut}/$id.tests.txt ]; then echo "TESTS FAIL with the change" | tee -a $out; cat ${MUTBASE:-/tmp/mut}/$id.tests.txt; else echo "tests pass with the change" | tee -a $out; fi
+( cd /repo && go build -o ${MUTBASE:-/tmp/mut}/$id.goit.orig . )
+demo=${MUTBASE:-/tmp/mut}/$id.demo.sh
 if [ -f $demo ]; then
-  bash $demo /tmp/mut/$id.goit.orig > /tmp/mut/$id.demo.orig.txt 2>&1; eo=$?
-  bash $demo /tmp/mut/$id.goit.changed > /tmp/mut/$id.demo.changed.txt 2>&1; ec=$?
+  bash $demo ${MUTBASE:-/tmp/mut}/$id.goit.orig > ${MUTBASE:-/tmp/mut}/$id.demo.orig.txt 2>&1; eo=$?
+  bash $demo ${MUTBASE:-/tmp/mut}/$id.goit.changed > ${MUTBASE:-/tmp/mut}/$id.demo.changed.txt 2>&1; ec=$?
   echo "demo: unchanged exit=$eo changed exit=$ec" | tee -a $out
 fi
-rm -f /tmp/mut/$id.goit.orig /tmp/mut/$id.goit.changed
-cd /verif && VERIF_REPO=$wt VERIF_DEBUG=1 ./harness/bin/verif check $prop $tier > /tmp/mut/$id.check.txt 2>&1; ex=$?
+rm -f ${MUTBASE:-/tmp/mut}/$id.goit.orig ${MUTBASE:-/tmp/mut}/$id.goit.changed
+cd /verif && VERIF_REPO=$wt VERIF_DEBUG=1 ./harness/bin/verif check $prop $tier > ${MUTBASE:-/tmp/mut}/$id.check.txt 2>&1; ex=$?
 echo "check $prop $tier exit=$ex" | tee -a $out
-grep "DEBUG\|VIOLATION\|KNOWN\|INFRA\|$tier:" /tmp/mut/$id.check.txt | cut -c1-220 | head -12 | tee -a $out
+grep "DEBUG\|VIOLATION\|KNOWN\|INFRA\|$tier:" ${MUTBASE:-/tmp/mut}/$id.check.txt | cut -c1-220 | head -12 | tee -a $out
